@@ -6,8 +6,8 @@ GEN    System.tla: TLC enumerates every history of {compile, apply a compiled
        editing a document in place} over three environments, six query texts
        (a '$'-rooted sub-query in a filter, a registry-dependent call, nested
        filter + descendant, match and search with the same pattern, an index out
-       of the subclass's range, an invalid text) and three documents (two equal
-       but distinct), up to MaxOps operations (VIEW = abstract state + last
+       of the subclass's range, an invalid text) and four documents (two equal
+       but distinct, one built from a shared sub-object), up to MaxOps operations (VIEW = abstract state + last
        operation), plus seeded random walks of 25 operations.  Each state carries
        the expected response of every operation, computed by Eval.tla.  The real
        objects are stepped along each history; after every operation: response =
@@ -27,7 +27,9 @@ from .. import core
 def _docs():
     d1 = {"x": 1, "k1": {"a": 1, "s": "ab"}, "k2": {"a": 2, "s": "xaby"}, "k3": [1, [1, 2], 2]}
     d3 = {"x": 2, "k1": {"a": 1}, "k2": {"a": 2, "s": "a"}, "k3": [2, [2], "a\n"]}
-    return {"d1": d1, "d2": copy.deepcopy(d1), "d3": d3}
+    shared = {"a": 1, "s": "ab"}
+    d4 = {"x": 1, "k1": shared, "k2": shared, "k3": [shared, [shared], 1]}      # aliasing, no cycle
+    return {"d1": d1, "d2": copy.deepcopy(d1), "d3": d3, "d4": d4}
 
 
 def _d3(version):
